@@ -5,22 +5,26 @@ import SpecterModel.C26.Conc
 C26 line-protocol driver (stateful; `reset` starts a fresh DHT).
 
   dest <addr> <chord> <tunnel>                      => ok            a destination record exists for server <addr>
-  gen <tok> <id>                                    => <hostname> D  GenerateHostname by the caller (name chosen by the implementation)
+  gen <tok> <id> <claim>                            => <hostname> D  GenerateHostname by the caller (name chosen by the implementation)
   bind <tok> <id> <host>                            => ok D          outcome of a successful AcmeValidate (custom binding + registration)
-  pub <tok> <id> <host> <servers> <failing slots>   => <code> <published> D
-  unpub <tok> <id> <host> <failing slots>           => <code> - D
-  rel <tok> <id> <host> <failing slots> <customDelFails 0|1> => <code> - D
+  pub <tok> <id> <host> <servers> <failing slots> <claim>   => <code> <published> D
+  unpub <tok> <id> <host> <failing slots> <claim>           => <code> - D
+  rel <tok> <id> <host> <failing slots> <customDelFails 0|1> <claim> => <code> - D
   hold <tok> <0|1>                                  => ok D          a concurrent call holds / drops the client's lease
+<tok> <id> = the identity on the caller's verified certificate; <claim> = the identity the peer claims on the stream
+(`StreamDelegate.Identity`): `-` (none) | `<id>|<address>|<rendezvous 0/1>` — honest, or spoofed (own Id with another
+client's address, another client's whole identity, …).
 Concurrent requests (one scenario = `creq`* `cs`* `cend`; every KV call of an in-flight request is one atomic step):
-  creq <tid> pub <tok> <id> <host> <servers> <failing slots>          => ok   request <tid> enters PublishTunnel
-  creq <tid> unpub <tok> <id> <host> <failing slots>                  => ok
-  creq <tid> rel <tok> <id> <host> <failing slots> <customDelFails>   => ok
+  creq <tid> pub <tok> <id> <host> <servers> <failing slots> <claim>          => ok   request <tid> enters PublishTunnel
+  creq <tid> unpub <tok> <id> <host> <failing slots> <claim>                  => ok
+  creq <tid> rel <tok> <id> <host> <failing slots> <customDelFails> <claim>   => ok
   cs <tid> <kv call>                                => <result> D    request <tid> executed this KV call (granted by the scheduler):
         acquire <tok> | unlock <tok> | contains <tok> <host> | get <addr> | put <host> <slot> | del <host> <slot>
         | premove <tok> <host> | delcustom <host>;  result: ok | conflict | yes | no | found | missing | fail
   cend                                              => <outs> D      all requests have returned; outs = `;`-joined `<tid>:<code>:<published>`
 D = `<routes> <owns> <custom>` = the implementation's DHT after the call, each a `;`-joined sorted list (`-` if empty):
-  route `h|k|tok|id|chord|tunnel|hostname`, owns `tok|h`, custom `h|tok|id`.
+  route `h|k|tok|id|chord|tunnel|hostname|rdv` (tok/id/rdv = Address/Id/Rendezvous of the route's ClientDestination),
+  owns `tok|h`, custom `h|tok|id`.
 servers: `-` | comma list of `n` (nil node) / `a<addr>`; failing slots: `-` | comma list of slot numbers.
 Strings are from [a-z0-9:.-] (no separators).
 -/
@@ -37,6 +41,7 @@ structure CReq where
   servers : List (Option String)
   failing : List Nat
   cf : Bool
+  claim : String := "-"
 
 structure DSt where
   st : St
@@ -62,7 +67,9 @@ def addU (x : String) (l : List String) : List String := if l.contains x then l 
 
 def renderRoutes (d : DSt) : List String :=
   sortS (d.hosts.flatMap fun h => (List.range 8).filterMap fun k =>
-    (d.st.route h k).map fun r => s!"{h}|{k}|{r.client.token}|{r.client.id}|{r.chord}|{r.tunnel}|{r.hostname}")
+    (d.st.route h k).map fun r =>
+      let n := r.client.node
+      s!"{h}|{k}|{n.address}|{n.id}|{r.chord}|{r.tunnel}|{r.hostname}|{if n.rendezvous then "1" else "0"}")
 def renderOwns (d : DSt) : List String :=
   sortS (d.toks.flatMap fun t => d.hosts.filterMap fun h => if d.st.owns t h then some s!"{t}|{h}" else none)
 def renderCustom (d : DSt) : List String :=
@@ -80,6 +87,13 @@ def parseServers (t : String) : Option (List (Option String)) :=
   if t = "-" then some [] else (t.splitOn ",").mapM fun x =>
     if x = "n" then some none else if x.startsWith "a" then some (some (x.drop 1).toString) else none
 
+/-- the identity claimed on the stream: `-` | `id|address|rdv`. -/
+def parseClaim (t : String) : Option (Option Ident) :=
+  if t = "-" then some none else
+  match t.splitOn "|" with
+  | [i, a, r] => if r = "0" ∨ r = "1" then i.toNat?.map fun n => some ⟨n, a, r = "1"⟩ else none
+  | _ => none
+
 def parseSlots (t : String) : Option (List Nat) :=
   if t = "-" then some [] else (t.splitOn ",").mapM String.toNat?
 
@@ -89,7 +103,11 @@ def faultsOf (slots : List Nat) (customFail : Bool) : Faults :=
 def field (s : String) (i : Nat) : String := (s.splitOn "|").getD i ""
 def field2 (s : String) (i : Nat) : String := (s.splitOn ":").getD i ""
 
-/-- a successful publish: 1..3 distinct servers, and slot i+1 holds the caller's route to requested server i. -/
+/-- the route names the identity on the caller's certificate: Address = token, Id, and a rendezvous (client) node. -/
+def namesVerified (tok id : String) (r : String) : Bool := field r 2 = tok && field r 3 = id && field r 7 = "1"
+
+/-- a successful publish: 1..3 distinct servers, and slot i+1 holds the caller's route to requested server i
+(the route names the caller's VERIFIED identity `tok`/`id`, whatever the caller claimed on the stream). -/
 def pubSlots (tok id h : String) (servers : List (Option String)) (failing : List Nat)
     (dest : String → Option Dest) (routes : List String) : Option String :=
   let req := (servers.filterMap (fun x => x)).eraseDups
@@ -97,17 +115,27 @@ def pubSlots (tok id h : String) (servers : List (Option String)) (failing : Lis
   let bad := (List.range req.length).find? fun i =>
     !(failing.contains (i + 1)) &&
     match dest (req.getD i "") with
-    | some d => !(routes.contains s!"{h}|{i+1}|{tok}|{id}|{d.chord}|{d.tunnel}|{h}")
+    | some d => !(routes.contains s!"{h}|{i+1}|{tok}|{id}|{d.chord}|{d.tunnel}|{h}|1")
     | none => true
   match bad with
-  | some i => some s!"slot {i+1} does not hold the caller's route to the requested server"
+  | some i =>
+    match routes.find? (fun r => field r 0 = h && field r 1 = toString (i + 1)) with
+    | some r =>
+      if !(namesVerified tok id r) then
+        some s!"slot {i+1} holds route {r} naming client address={field r 2} id={field r 3} rendezvous={field r 7} instead of the caller's verified identity address={tok} id={id} rendezvous=1"
+      else some s!"slot {i+1} does not hold the caller's route to the requested server"
+    | none => some s!"slot {i+1} does not hold the caller's route to the requested server"
   | none => none
 
 /-- statement-level oracle on the IMPLEMENTATION's own before/after digests. -/
 def specCheck (op tok id h : String) (servers : List (Option String)) (failing : List Nat) (customFail : Bool)
     (dest : String → Option Dest) (prevRoutes prevOwns : List String)
-    (code : String) (routes owns custom : List String) : Option String :=
+    (code : String) (routes owns custom : List String) (claim : String := "-") : Option String :=
   let owned := prevOwns.contains s!"{tok}|{h}"
+  -- a route that a publish stored names the identity on the caller's certificate, not one claimed on the stream
+  match (if op = "pub" then routes.find? (fun r => !(prevRoutes.contains r) && field r 0 = h && !(namesVerified tok id r)) else none) with
+  | some r => some s!"publish by the client with verified identity address={tok} id={id} rendezvous=1 (claiming {claim} on the stream) stored route {r}, which names client address={field r 2} id={field r 3} rendezvous={field r 7}"
+  | none =>
   -- every stored route names a client to whom its hostname is registered
   match routes.find? (fun r => !(owns.contains s!"{field r 2}|{field r 0}") || field r 6 ≠ field r 0) with
   | some r => some s!"route {r} does not point to an owner of its hostname"
@@ -176,6 +204,11 @@ def cspec (reqs : List CReq) (dest : String → Option Dest) (prevRoutes prevOwn
   let code (q : CReq) : String := ((outs.find? (fun o => field2 o 0 = toString q.tid)).map (fun o => field2 o 1)).getD "?"
   let owner (q : CReq) : Bool := prevOwns.contains s!"{q.tok}|{q.h}"
   let summary := ", ".intercalate (reqs.map fun q => s!"{q.op} {q.tok} {q.h}: {code q}")
+  -- a route stored by these calls names the certificate identity of one of the publish requests for its hostname
+  match routes.find? (fun r => !(prevRoutes.contains r) &&
+      !(reqs.any fun q => q.op = "pub" && q.h = field r 0 && namesVerified q.tok q.id r)) with
+  | some r => some s!"all concurrent calls returned ({summary}) and the stored route {r} names client address={field r 2} id={field r 3} rendezvous={field r 7}, which is not the verified identity of any publish request for its hostname (claimed on the streams: {", ".intercalate (reqs.map fun q => q.claim)})"
+  | none =>
   -- once every call has returned, every stored route names a client to whom its hostname is registered
   match routes.find? (fun r => !(owns.contains s!"{field r 2}|{field r 0}") || field r 6 ≠ field r 0) with
   | some r => some s!"all concurrent calls returned ({summary}) and route {r} is published although its hostname is not registered to the client it names"
@@ -215,9 +248,9 @@ def cspec (reqs : List CReq) (dest : String → Option Dest) (prevRoutes prevOwn
   | some q => some s!"publish and unpublish/release of {q.h} both returned success and its routes are neither removed nor the published ones"
   | none => none
 
-def spawnReq (d : DSt) (q : CReq) (n : Nat) : DSt :=
+def spawnReq (d : DSt) (q : CReq) (n : Nat) (cl : Option Ident) : DSt :=
   let kind : Kind := if q.op = "pub" then .publish q.servers else if q.op = "unpub" then .unpublish else .release
-  let t := spawn kind (faultsOf q.failing q.cf) ⟨q.tok, n⟩ q.h
+  let t := spawnBy kind (faultsOf q.failing q.cf) ⟨⟨q.tok, n⟩, cl⟩ q.h
   { d with toks := addU q.tok d.toks, hosts := addU q.h d.hosts,
            pool := (d.pool.filter (fun x => x.1 ≠ q.tid)) ++ [(q.tid, t)], reqs := (d.reqs.filter (fun x => x.tid ≠ q.tid)) ++ [q] }
 
@@ -255,15 +288,14 @@ def dstep (d : DSt) (toks : List String) (rhs : String) : DSt × Verdict :=
   | ["hold", tok, b] =>
     let (st', out) := Specter.C26.step d.st (.hold tok (b == "1"))
     finish { d with toks := addU tok d.toks } st' out ("ok - " ++ (rhs.drop 3).toString) toks (fun _ _ _ _ => none)
-  | ["gen", tok, id] =>
-    match id.toNat?, rhs.splitOn " " with
-    | some n, [h, rts, own, cus] =>
-      let c : Client := ⟨tok, n⟩
+  | ["gen", tok, id, claim] =>
+    match id.toNat?, parseClaim claim, rhs.splitOn " " with
+    | some n, some cl, [h, rts, own, cus] =>
       let d1 := { d with toks := addU tok d.toks, hosts := addU h d.hosts }
-      let (st', out) := Specter.C26.step d1.st (.generate c h)
+      let (st', out) := stepReq d1.st (.generate ⟨⟨tok, n⟩, cl⟩ h)
       finish d1 st' out s!"ok - {rts} {own} {cus}" toks
-        (fun code r o cu => specCheck "gen" tok id h [] [] false d.st.dest d.prevRoutes (addU s!"{tok}|{h}" d.prevOwns) code r o cu)
-    | _, _ => (d, .bad "gen")
+        (fun code r o cu => specCheck "gen" tok id h [] [] false d.st.dest d.prevRoutes (addU s!"{tok}|{h}" d.prevOwns) code r o cu claim)
+    | _, _, _ => (d, .bad "gen")
   | ["bind", tok, id, h] =>
     match id.toNat? with
     | some n =>
@@ -271,39 +303,39 @@ def dstep (d : DSt) (toks : List String) (rhs : String) : DSt × Verdict :=
       let (st', out) := Specter.C26.step d1.st (.bindCustom ⟨tok, n⟩ h)
       finish d1 st' out ("ok - " ++ (rhs.drop 3).toString) toks (fun _ _ _ _ => none)
     | none => (d, .bad "bind")
-  | ["pub", tok, id, h, servers, failing] =>
-    match id.toNat?, parseServers servers, parseSlots failing with
-    | some n, some ss, some fs =>
+  | ["pub", tok, id, h, servers, failing, claim] =>
+    match id.toNat?, parseServers servers, parseSlots failing, parseClaim claim with
+    | some n, some ss, some fs, some cl =>
       let d1 := { d with toks := addU tok d.toks, hosts := addU h d.hosts }
-      let (st', out) := Specter.C26.step d1.st (.publish (faultsOf fs false) ⟨tok, n⟩ h ss)
-      finish d1 st' out rhs toks (specCheck "pub" tok id h ss fs false d.st.dest d.prevRoutes d.prevOwns)
-    | _, _, _ => (d, .bad "pub")
-  | ["unpub", tok, id, h, failing] =>
-    match id.toNat?, parseSlots failing with
-    | some n, some fs =>
+      let (st', out) := stepReq d1.st (.publish (faultsOf fs false) ⟨⟨tok, n⟩, cl⟩ h ss)
+      finish d1 st' out rhs toks (fun code r o cu => specCheck "pub" tok id h ss fs false d.st.dest d.prevRoutes d.prevOwns code r o cu claim)
+    | _, _, _, _ => (d, .bad "pub")
+  | ["unpub", tok, id, h, failing, claim] =>
+    match id.toNat?, parseSlots failing, parseClaim claim with
+    | some n, some fs, some cl =>
       let d1 := { d with toks := addU tok d.toks, hosts := addU h d.hosts }
-      let (st', out) := Specter.C26.step d1.st (.unpublish (faultsOf fs false) ⟨tok, n⟩ h)
-      finish d1 st' out rhs toks (specCheck "unpub" tok id h [] fs false d.st.dest d.prevRoutes d.prevOwns)
-    | _, _ => (d, .bad "unpub")
-  | ["rel", tok, id, h, failing, cf] =>
-    match id.toNat?, parseSlots failing with
-    | some n, some fs =>
+      let (st', out) := stepReq d1.st (.unpublish (faultsOf fs false) ⟨⟨tok, n⟩, cl⟩ h)
+      finish d1 st' out rhs toks (fun code r o cu => specCheck "unpub" tok id h [] fs false d.st.dest d.prevRoutes d.prevOwns code r o cu claim)
+    | _, _, _ => (d, .bad "unpub")
+  | ["rel", tok, id, h, failing, cf, claim] =>
+    match id.toNat?, parseSlots failing, parseClaim claim with
+    | some n, some fs, some cl =>
       let d1 := { d with toks := addU tok d.toks, hosts := addU h d.hosts }
-      let (st', out) := Specter.C26.step d1.st (.release (faultsOf fs (cf == "1")) ⟨tok, n⟩ h)
-      finish d1 st' out rhs toks (specCheck "rel" tok id h [] fs (cf == "1") d.st.dest d.prevRoutes d.prevOwns)
-    | _, _ => (d, .bad "rel")
-  | ["creq", tid, "pub", tok, id, h, servers, failing] =>
-    match tid.toNat?, id.toNat?, parseServers servers, parseSlots failing with
-    | some i, some n, some ss, some fs => (spawnReq d ⟨i, "pub", tok, id, h, ss, fs, false⟩ n, .ok)
-    | _, _, _, _ => (d, .bad "creq pub")
-  | ["creq", tid, "unpub", tok, id, h, failing] =>
-    match tid.toNat?, id.toNat?, parseSlots failing with
-    | some i, some n, some fs => (spawnReq d ⟨i, "unpub", tok, id, h, [], fs, false⟩ n, .ok)
-    | _, _, _ => (d, .bad "creq unpub")
-  | ["creq", tid, "rel", tok, id, h, failing, cf] =>
-    match tid.toNat?, id.toNat?, parseSlots failing with
-    | some i, some n, some fs => (spawnReq d ⟨i, "rel", tok, id, h, [], fs, cf == "1"⟩ n, .ok)
-    | _, _, _ => (d, .bad "creq rel")
+      let (st', out) := stepReq d1.st (.release (faultsOf fs (cf == "1")) ⟨⟨tok, n⟩, cl⟩ h)
+      finish d1 st' out rhs toks (fun code r o cu => specCheck "rel" tok id h [] fs (cf == "1") d.st.dest d.prevRoutes d.prevOwns code r o cu claim)
+    | _, _, _ => (d, .bad "rel")
+  | ["creq", tid, "pub", tok, id, h, servers, failing, claim] =>
+    match tid.toNat?, id.toNat?, parseServers servers, parseSlots failing, parseClaim claim with
+    | some i, some n, some ss, some fs, some cl => (spawnReq d ⟨i, "pub", tok, id, h, ss, fs, false, claim⟩ n cl, .ok)
+    | _, _, _, _, _ => (d, .bad "creq pub")
+  | ["creq", tid, "unpub", tok, id, h, failing, claim] =>
+    match tid.toNat?, id.toNat?, parseSlots failing, parseClaim claim with
+    | some i, some n, some fs, some cl => (spawnReq d ⟨i, "unpub", tok, id, h, [], fs, false, claim⟩ n cl, .ok)
+    | _, _, _, _ => (d, .bad "creq unpub")
+  | ["creq", tid, "rel", tok, id, h, failing, cf, claim] =>
+    match tid.toNat?, id.toNat?, parseSlots failing, parseClaim claim with
+    | some i, some n, some fs, some cl => (spawnReq d ⟨i, "rel", tok, id, h, [], fs, cf == "1", claim⟩ n cl, .ok)
+    | _, _, _, _ => (d, .bad "creq rel")
   | "cs" :: tid :: call =>
     match tid.toNat?, parseCall call with
     | some i, some c => cstepLine d i c rhs
